@@ -11,9 +11,10 @@ import (
 var descProtoTypes = []string{"FileDescriptorProto", "DescriptorProto", "FieldDescriptorProto", "OneofDescriptorProto", "EnumDescriptorProto", "EnumValueDescriptorProto", "ServiceDescriptorProto", "MethodDescriptorProto", "DescriptorProto_ExtensionRange", "DescriptorProto_ReservedRange", "EnumDescriptorProto_EnumReservedRange"}
 
 // descFieldSets extracts, per descriptor-proto message type:
-//   written: fields set by protodesc's To*DescriptorProto functions (composite literal keys and later field assignments)
-//   read:    fields read through GetX() getters by the rest of package protodesc
-//   parsed:  fields whose genid field-number constant is handled in internal/filedesc
+//
+//	written: fields set by protodesc's To*DescriptorProto functions (composite literal keys and later field assignments)
+//	read:    fields read through GetX() getters by the rest of package protodesc
+//	parsed:  fields whose genid field-number constant is handled in internal/filedesc
 func (c *Ctx) descFieldSets() (written, read, parsed map[string]map[string]bool) {
 	P := c.P
 	written, read, parsed = map[string]map[string]bool{}, map[string]map[string]bool{}, map[string]map[string]bool{}
@@ -151,7 +152,7 @@ func init() {
 
 var descFieldExceptions = map[string]string{
 	"C34 FileDescriptorProto.WeakDependency schema-not-written": "weak imports are no longer supported by this implementation: neither NewFile nor ToFileDescriptorProto handles weak_dependency and FileImport.IsWeak is never set, so a weak import is normalised to an ordinary import in both directions",
-	"C37 FileDescriptorProto.SourceCodeInfo read-not-parsed": "source locations are not embedded in raw descriptors of generated code (stripped by the generator); the compact builder has no source info by design",
+	"C37 FileDescriptorProto.SourceCodeInfo read-not-parsed":    "source locations are not embedded in raw descriptors of generated code (stripped by the generator); the compact builder has no source info by design",
 }
 
 func (c *Ctx) ruleDescFields(rule string, prop string) {
